@@ -139,3 +139,8 @@ MUTANTS += [
  {"id": "rebased-position-slice-two-past", "kind": "break", "edits": [{"patch": "/verif/benign/h5-plist-1/patch.diff"}, ("src/plist.rs", ".map(|skip| OsStr::from_bytes(&bytes[idx + skip..]))", ".map(|skip| OsStr::from_bytes(&bytes[idx + skip + 2..]))")], "expect": ["PANIC@plist::PlistEntry::from_bytes"]},
  {"id": "rebased-position-slice-from-other-search", "kind": "break", "edits": [{"patch": "/verif/benign/h5-plist-1/patch.diff"}, ("src/plist.rs", "            bytes[idx..]\n                .iter()\n                .position(|c| !c.is_ascii_whitespace())", "            bytes[1..]\n                .iter()\n                .position(|c| !c.is_ascii_whitespace())")], "expect": ["PANIC@plist::PlistEntry::from_bytes"]},
 ]
+MUTANTS += [
+ # overflow of arithmetic that is not on sizes: the i32 field counter repaired in /repo, re-introduced; a parsed u64 incremented
+ {"id": "regress-field-counter-i32", "kind": "break", "edits": [("src/distinfo.rs", "            let mut field: usize = 0;", "            let mut field = 0;")], "expect": ["PANIC@distinfo::Line::from_bytes", "Overflow(Add)"]},
+ {"id": "probe-parsed-size-plus-one", "kind": "break", "edits": [("src/distinfo.rs", "                    Ok(n) => return Line::Size(path, n),", "                    Ok(n) => return Line::Size(path, n + 1),")], "expect": ["PANIC@distinfo::Line::from_bytes", "Overflow(Add)"]},
+]
